@@ -38,6 +38,7 @@ ERRS = {'visited': '.visited', 'crate_': '.crate_', 'none': '.none', 'empty': '.
 # optional groups: extracted independently; a group the source no longer has in the recognised shape claims nothing
 PATH_THEOREMS = ['traitPath_eq', 'supportsUnion_eq']
 WORD_THEOREMS = ['srcWords_closed', 'srcTemps_prefixed', 'pathFromStrs_rooted']
+UNSAFE_THEOREMS = ['unsafeTemplates_guarded']
 
 THEOREMS = ['groupTraits_eq', 'groups_complete', 'traits_complete', 'ints_complete', 'traitSupported_eq', 'traitOfName_eq',
             'traitOfName_complete', 'traitOfName_asStr', 'groupOfName_eq', 'groupOfName_complete', 'reprOfName_eq',
@@ -161,6 +162,10 @@ def extract(repo):
     except (Missing, OSError, ValueError, IndexError) as e:
         out['words'] = None
         out['words_reason'] = repr(e)
+    try:
+        out['unsafe_sites'] = extract_unsafe_sites(repo)
+    except (Missing, OSError, ValueError, IndexError, StopIteration) as e:
+        out['unsafe_sites'] = None
     return out
 
 
@@ -213,6 +218,32 @@ def extract_words(repo):
     util = open(os.path.join(repo, 'src/util.rs')).read()
     rooted = 'leading_colon: Some(' in body_of(util, 'pub fn path_from_strs')
     return sorted(words), sorted(temps), rooted
+
+
+def extract_unsafe_sites(repo):
+    """Every token template of the source that contains the word `unsafe`, with whether the statement or match arm it
+    belongs to carries `#[cfg(not(feature = "safe"))]` (the nearest `#[cfg(..)]` within the three lines above)."""
+    import glob
+    sites = []
+    for f in sorted(glob.glob(os.path.join(repo, 'src/**/*.rs'), recursive=True)):
+        if '/src/test/' in f or f.endswith('verif_hook.rs'):
+            continue
+        raw = open(f).read()
+        lines = raw.split('\n')
+        for m in re.finditer(r'\b(quote|quote_spanned|parse_quote)!\s*[\{\(\[]', raw):
+            body = next(quote_bodies(raw[m.start():]))[1]
+            body = re.sub(r'"(\\.|[^"\\])*"', '""', re.sub(r'//[^\n]*', '', body))
+            if not re.search(r'\bunsafe\b', body):
+                continue
+            ln = raw.count('\n', 0, m.start())            # 0-based line of the template
+            guard = None
+            for k in range(ln, max(-1, ln - 4), -1):
+                g = re.search(r'#\[cfg\((.*)\)\]', lines[k])
+                if g:
+                    guard = g.group(1).replace(' ', '')
+                    break
+            sites.append((os.path.relpath(f, repo), ln + 1, guard == 'not(feature="safe")'))
+    return sites
 
 
 def lean_file(t):
@@ -280,6 +311,12 @@ def lean_file(t):
               '/-- `util::path_from_strs` sets the leading `::`. -/',
               'theorem pathFromStrs_rooted : pathFromStrsLeading = true := by decide']
         names += WORD_THEOREMS
+    if t.get('unsafe_sites') is not None:
+        L.append('def unsafeSites : List (String × Nat × Bool) := [%s]' % ', '.join('(%s, %d, %s)' % (lean_str(f), n, 'true' if g else 'false') for f, n, g in t['unsafe_sites']))
+        L += ['/-- Every token template of the source that says `unsafe` is compiled only without the `safe` feature (the source-side',
+              'twin of `C12_safe_no_unsafe`). -/',
+              'theorem unsafeTemplates_guarded : (unsafeSites.all fun s => s.2.2) = true := by decide']
+        names += UNSAFE_THEOREMS
     L += ['end DW.Extracted', ''] + ['#print axioms DW.Extracted.%s' % n for n in names]
     return '\n'.join(L)
 
@@ -294,6 +331,8 @@ def check(prop):
         return None, repr(e)
     if prop != 'C14':
         t['words'] = None          # the vocabulary of the templates is C14's obligation only
+    if prop != 'C12':
+        t['unsafe_sites'] = None   # the cfg guards of the `unsafe` templates are C12's
     os.makedirs(runner.WORK, exist_ok=True)
     f = os.path.join(runner.WORK, 'Tables_%s.lean' % prop)
     open(f, 'w').write(lean_file(t))
@@ -304,7 +343,7 @@ def check(prop):
         return ['the tables extracted from the source differ from the model\'s (%s): %s' % (os.path.relpath(f, runner.VERIF), ' | '.join(errs)[:600])], 0
     bad = []
     global LAST_NAMES
-    LAST_NAMES = list(THEOREMS) + (PATH_THEOREMS if t.get('paths') else []) + (WORD_THEOREMS if t.get('words') is not None else [])
+    LAST_NAMES = list(THEOREMS) + (PATH_THEOREMS if t.get('paths') else []) + (WORD_THEOREMS if t.get('words') is not None else []) + (UNSAFE_THEOREMS if t.get('unsafe_sites') is not None else [])
     for n in LAST_NAMES:
         m = re.search(r"'DW\.Extracted\.%s' (does not depend on any axioms|depends on axioms: \[([^\]]*)\])" % n, p.stdout)
         if not m:
